@@ -78,6 +78,7 @@ def _sign1(x):
 class NumpyModel:
     def __init__(self, interp):
         self.I = interp
+        self.dtype_of = {}      # id(dtype value handed out by `array.dtype`) -> (id(array), array)
 
     # ------------------------------------------------------------------ builtins
     def builtin(self, name, node):
@@ -109,7 +110,9 @@ class NumpyModel:
     def value_attr(self, base, attr, node):
         if isinstance(base, np.ndarray):
             if attr == "dtype":
-                return ExtRef("numpy.float64")
+                r_ = ExtRef("numpy.float64")
+                self.dtype_of[id(r_)] = (id(base), base)      # remember whose dtype this is (kept alive)
+                return r_
             if attr == "shape":
                 return tuple(base.shape)
             if attr == "size":
@@ -323,10 +326,13 @@ class NumpyModel:
         if name == "reshape":
             shp = args[0] if len(args) == 1 and isinstance(args[0], (tuple, list)) else args
             return a.reshape(tuple(int(x) for x in shp))
-        if name in ("flatten",):
-            return a.flatten()
-        if name == "ravel":
-            return a.ravel()
+        if name in ("flatten", "ravel"):
+            order = kwargs.get("order", args[0] if args and isinstance(args[0], str) else "C")
+            if order not in ("C", "F"):
+                # 'K'/'A': the order of the result follows the MEMORY layout of the array, which the values do not determine
+                I.emit("memory-order", (name, order, id(a)), node)
+                order = "C"
+            return a.flatten(order=order) if name == "flatten" else a.ravel(order=order)
         if name == "copy":
             return a.copy()
         if name == "squeeze":
@@ -756,22 +762,45 @@ class NumpyModel:
         a = self.np_atleast_1d(x)
         return a if a.ndim >= 2 else a.reshape(1, -1)
 
+    def _note_dtype(self, dtype, like=None):
+        """a new buffer whose element type is taken from another array: recorded, the checks decide whether that array is an argument"""
+        src = self.dtype_of.get(id(dtype)) if dtype is not None else None
+        if src is not None:
+            self.I.emit("dtype-from", (src[0],))
+        if like is not None and isinstance(like, np.ndarray) and dtype is None:
+            self.I.emit("dtype-from", (id(like),))
+
     def np_zeros(self, shape, dtype=None):
+        self._note_dtype(dtype)
         return full(_shape(shape), 0)
 
     def np_ones(self, shape, dtype=None):
+        self._note_dtype(dtype)
         return full(_shape(shape), 1)
 
     def np_empty(self, shape, dtype=None):
+        self._note_dtype(dtype)
         a = np.empty(_shape(shape), dtype=object)
         a.fill(UNINIT)
         return a
 
     def np_full(self, shape, v, dtype=None):
+        self._note_dtype(dtype)
         return full(_shape(shape), v)
 
     def np_zeros_like(self, a, dtype=None):
+        self._note_dtype(dtype, like=a)
         return full(np.shape(a), 0)
+
+    def np_empty_like(self, a, dtype=None):
+        self._note_dtype(dtype, like=a)
+        r_ = np.empty(np.shape(a), dtype=object)
+        r_.fill(UNINIT)
+        return r_
+
+    def np_ones_like(self, a, dtype=None):
+        self._note_dtype(dtype, like=a)
+        return full(np.shape(a), 1)
 
     def np_eye(self, n, dtype=None):
         a = full((int(n), int(n)), 0)
